@@ -14,7 +14,7 @@ Extraction "extracted.ml"
   GenSuper.DataStart GenSuper.NInode GenSuper.Inum2Addr GenSuper.NBlockBitmap
   SuperModel.markAlloc_sane SuperModel.mk_bit SuperModel.mk_ibit SuperModel.fresh_free_blocks SuperModel.fresh_free_inodes
   SuperModel.layout_ok_b SuperModel.bitmap_ok_b
-  Agree.agree Agree.hint_of Agree.cmp_state Agree.class_of Agree.code_of Agree.nospace_plausible Agree.enum_names Agree.readdir_matches_model Agree.readdirplus_matches_model Agree.cached_inode_ok Agree.name_cache_ok Agree.limits_plausible
+  Agree.agree Agree.hint_of Agree.cmp_state Agree.class_of Agree.code_of Agree.nospace_plausible Agree.enum_names Agree.readdir_matches_model Agree.readdirplus_matches_model Agree.dir_slot_table Agree.slots_moved Agree.cached_inode_ok Agree.name_cache_ok Agree.limits_plausible
   SimpleModel.sstep SimpleModel.istep SimpleModel.simple_abs SimpleModel.simple_inum_of_handle SimpleModel.s_file SimpleModel.simple_empty_s SimpleModel.simple_empty_i
   KvsModel.kput KvsModel.kget KvsModel.k_valid KvsModel.kput_ok KvsModel.kvs_empty Abs.rd
   TraceCheck.asc_b TraceCheck.asc_f TraceCheck.commit_phase_b TraceCheck.balanced_b TraceCheck.waits TraceCheck.committed
